@@ -79,6 +79,11 @@ func (c03) Gen(r *simrt.Rand, idx int, tier string) *Case {
 		c.Sub += "+map"
 	}
 	if accs := c.J.Accounts(); r.P(0.15) && len(accs) > 0 {
+		// an account filter: positions, their mirrored income accounts and counter-accounts pass it or not each on its own
+		f.Accounts = append(f.Accounts, []string{"^Income", "^(Assets|Income)", "^Equity", pickRegex(r, accs), pickRegex(r, accs)}[r.Intn(5)])
+		c.Sub += "+filter"
+	}
+	if accs := c.J.Accounts(); r.P(0.15) && len(accs) > 0 {
 		// --remap shows the matching accounts under the opposite type; values are unaffected
 		f.Remap = append(f.Remap, pickRegex(r, accs))
 		c.Sub += "+remap"
@@ -202,9 +207,15 @@ func (c03) Eval(c *Case) (*Violation, bool) {
 		type rc struct{ row, com string }
 		// rowsAt: what every row shows (display sign) for the bookings from the window
 		// start up to day e, without period closing
-		rowsAt := func(e Day) map[rc]cell {
+		rowsAt := func(e Day, filtered bool) map[rc]cell {
 			out := map[rc]cell{}
-			put := func(row, com string, val decimal.Decimal, tol int) {
+			put := func(acc, com string, val decimal.Decimal, tol int) {
+				// --account filters each posting by its own account: the position, the mirrored
+				// income account of its value adjustments, the counter-account of a booking
+				if filtered && !matchAny(rx, f.Accounts, acc) {
+					return
+				}
+				row := mapAccount(acc, f, rx)
 				if row == "" {
 					return
 				}
@@ -235,7 +246,6 @@ func (c03) Eval(c *Case) (*Violation, bool) {
 				cnt[k]++
 			}
 			for k, q := range qty {
-				row := mapAccount(k.a, f, rx)
 				if isAL(k.a) {
 					pe := e
 					if pe > w.End {
@@ -246,13 +256,13 @@ func (c03) Eval(c *Case) (*Violation, bool) {
 						continue
 					}
 					val := qToDec(q).Mul(pr)
-					put(row, k.c, val, cnt[k]+ndays+2)
+					put(k.a, k.c, val, cnt[k]+ndays+2)
 					gain := val.Sub(booked[k])
 					// credited to the mirrored income account: raw -gain, displayed +gain
-					put(mapAccount(mirrorOf(k.a), f, rx), k.c, gain, cnt[k]+ndays+2)
+					put(mirrorOf(k.a), k.c, gain, cnt[k]+ndays+2)
 				} else {
 					// non-A/L rows are displayed negated
-					put(row, k.c, booked[k].Neg(), cnt[k]+1)
+					put(k.a, k.c, booked[k].Neg(), cnt[k]+1)
 				}
 			}
 			return out
@@ -274,10 +284,12 @@ func (c03) Eval(c *Case) (*Violation, bool) {
 			}
 		}
 		equityRow := mapAccount("Equity:Equity", f, rx)
+		equityShown := matchAny(rx, f.Accounts, "Equity:Equity") && equityRow != ""
 		for i, e := range t.Dates {
-			cur := rowsAt(e)
+			cur := rowsAt(e, true)
 			if closing && starts[i]-1 >= w.Start {
-				for k, x := range rowsAt(starts[i] - 1) {
+				// the rows that pass the filter restart ...
+				for k, x := range rowsAt(starts[i]-1, true) {
 					if isAL(k.row) || k.row == equityRow {
 						continue
 					}
@@ -285,11 +297,20 @@ func (c03) Eval(c *Case) (*Violation, bool) {
 					c0.v = c0.v.Sub(x.v)
 					c0.tol += x.tol
 					cur[k] = c0
-					ek := rc{equityRow, k.com}
-					e0 := cur[ek]
-					e0.v = e0.v.Add(x.v)
-					e0.tol += x.tol
-					cur[ek] = e0
+				}
+				// ... and Equity:Equity, if it is shown, carries what every income and expense
+				// account had accumulated, whether or not those accounts pass the filter
+				if equityShown {
+					for k, x := range rowsAt(starts[i]-1, false) {
+						if isAL(k.row) || k.row == equityRow {
+							continue
+						}
+						ek := rc{equityRow, k.com}
+						e0 := cur[ek]
+						e0.v = e0.v.Add(x.v)
+						e0.tol += x.tol
+						cur[ek] = e0
+					}
 				}
 			}
 			for k, x := range cur {
